@@ -111,6 +111,9 @@ class UntypedAtomic(AnyAtomicType):
                 else:
                     try:
                         value = type(other)(self.value)
+                        if isinstance(value, Decimal) and not value.is_finite():
+                            # Not a decimal: only 'NaN', 'INF' and '-INF' are xs:double values
+                            return op(get_double(self.value, self._xsd_version), float(other))
                     except ArithmeticError:
                         # e.g. decimal.InvalidOperation for a not numeric string
                         msg = "{!r} cannot be cast to {!r}".format(self.value, type(other))
